@@ -551,6 +551,9 @@ class Process(object):
         for child in get_children(self._worker, recursive):
             try:
                 child.send_signal(signum)
+            except NoSuchProcess:
+                # gone since the lookup: the others are still owed the signal
+                pass
             except OSError as e:
                 if e.errno != errno.ESRCH:
                     raise
